@@ -216,7 +216,8 @@ def run_pit_case(ctx, case):
     ctx.tag("pit:random" if rnd else "pit:plain")
     np.random.seed(case.get("npseed", 3))
     ctx.api("pit")
-    pits, sudo = call(m_.pit, obs, ens, random=rnd, cst=cst, censor=censor)
+    kind = case.get("pitkind", "rank")
+    pits, sudo = call(m_.pit, obs, ens, random=rnd, cst=cst, censor=censor, kind=kind)
     pits = np.asarray(pits, dtype=float)
     ctx.check("pit.range", pits.shape == (n,) and bool(np.all((pits >= -1e-12) & (pits <= 1 + 1e-12))),
               "pit|range", case, lambda: {"pits": pits.tolist()})
@@ -357,7 +358,8 @@ def run(ctx):
         run_pit_case(ctx, {"kind": "pit", "obs": obs, "ens": ens,
                            "random": bool(it % 2), "cst": float(rng.uniform(0, 0.5))
                            if it % 5 else [0.0, 0.5][it % 2],
-                           "censor": censor, "npseed": int(rng.integers(0, 2 ** 31))})
+                           "censor": censor, "npseed": int(rng.integers(0, 2 ** 31)),
+                           "pitkind": ["rank", "weak", "strict", "mean"][(it // 2) % 4]})
         # uniformity statistics
         nn = int(rng.integers(1, 12)) if it % 3 == 0 else int(rng.integers(1, 501))
         kind = it % 4
